@@ -365,6 +365,9 @@ func TestVerif_C01_LongSession(t *testing.T) {
 		m.Case()
 		m.Guard("rtmp.longsession", nil, func() {
 			ncs := r.Range(1, 5)
+			if i%2 == 0 {
+				ncs = 1 // every second session on a single chunk stream: its per-stream state sees all 70 000 messages
+			}
 			cids := make([]uint32, ncs)
 			for k := range cids {
 				cids[k] = uint32(r.Range(2, 63))
